@@ -7,8 +7,14 @@ import JunoModel.C17.Model
 * `tick <fin>`                                            poll + `setL1Head` → `head=<h> note=<h>`
 * `fwd <blockNumber> <blockHash> <globalRoot> <l1> <removed>`  raw L1 log through the geth layer
                                                           → `su <l2> <hash> <root> <l1> <removed>`
-* `startup <oneshot 0|1> <chain-id answers e|o|m… or -> <latest ok 0|1> <fin1 ok 0|1>`
-                                                          → `gate=proceed|fatal|cancelled catchup=yes|no`
+* `life <oneshot 0|1> <chain-id answers e|o|m… or -> <latest|-> <fin1|-> <chunk> <failAt|none> <fin2>`
+    executes `startUp` / `runLife` on the stored head given to `new`, the `hist` lines and every
+    event-loop input received since `new`                 → `gate=proceed|fatal|cancelled head=<h>`
+* `tickfault <fin> <r|w>`   `setL1Head` with a failing stored-head read / write
+                                                          → `head=<h> feed=<h> fatal=<0|1>`
+* `raw <blockNumber> <blockHash> <globalRoot> <l1> <removed>` → `ok`; `fwdstream` executes
+    `forwardStream` on the raw logs received since the last one → `su …|su …` or `-`
+* `feednew` | `feedsend <l2> <hash> <root>` | `feedrecv` → `ok`; `feedgot` → received heads (`Subscriber.step`)
 * `head`                                                   → `head=<h>` (stored head, no transition)
 * `suberr` | `resub <0|1>` | `finerr`                     → `ok` (identity transitions)
 * `hist <l2> <hash> <root> <l1> <removed>` / `histclear`  provider log history for catch-up → `ok`
@@ -21,6 +27,10 @@ structure DState where
   guard : Bool := false
   st : State := State.init none
   hist : List SU := []
+  init : Option Head := none      -- the head stored before the life started
+  trace : List Ev := []           -- every event-loop input of this life, newest first
+  raws : List RawLog := []        -- raw L1 logs pushed through the geth layer, newest first
+  sub : Subscriber := {}          -- one subscriber of the L1-head feed
 
 def fmtHead : Option Head → String
   | none => "none"
@@ -50,21 +60,23 @@ def dstep (s : DState) (line : String) : DState × String :=
   match words line with
   | ["new", g, "none"] =>
     match bool? g with
-    | some g => ({ guard := g, st := State.init none, hist := [] }, "ok")
+    | some g => ({ guard := g, st := State.init none, hist := [], init := none }, "ok")
     | none => (s, "bad-op")
   | ["new", g, a, b, c] =>
     match bool? g, hexToNat? a, hexToNat? b, hexToNat? c with
-    | some g, some a, some b, some c => ({ guard := g, st := State.init (some ⟨a, b, c⟩), hist := [] }, "ok")
+    | some g, some a, some b, some c =>
+      ({ guard := g, st := State.init (some ⟨a, b, c⟩), hist := [], init := some ⟨a, b, c⟩ }, "ok")
     | _, _, _, _ => (s, "bad-op")
   | ["upd", a, b, c, d, e] =>
     match su? a b c d e with
-    | some u => ({ s with st := step s.guard s.st (.upd u) }, "ok")
+    | some u => ({ s with st := step s.guard s.st (.upd u), trace := .upd u :: s.trace }, "ok")
     | none => (s, "bad-op")
   | ["tick", f] =>
     match hexToNat? f with
     | some f =>
       let r := setL1Head s.guard s.st f
-      ({ s with st := r.1 }, "head=" ++ fmtHead r.1.head ++ " note=" ++ fmtHead r.2)
+      ({ s with st := r.1, trace := .tick f :: s.trace },
+        "head=" ++ fmtHead r.1.head ++ " note=" ++ fmtHead r.2)
     | none => (s, "bad-op")
   | ["fwd", a, b, c, d, e] =>
     match hexToNat? a, hexToNat? b, hexToNat? c, hexToNat? d, bool? e with
@@ -73,25 +85,54 @@ def dstep (s : DState) (line : String) : DState × String :=
       (s, "su " ++ natToHex u.l2 ++ " " ++ natToHex u.hash ++ " " ++ natToHex u.root ++ " " ++
         natToHex u.l1 ++ " " ++ (if u.removed then "1" else "0"))
     | _, _, _, _, _ => (s, "bad-op")
-  | ["startup", os, script, la, f1] =>
+  | ["life", os, script, la, f1, ch, fa, f2] =>
     let ans? : Option (List ChainIdAns) := if script == "-" then some [] else
       script.toList.foldr (fun c acc => do
         let t ← acc
         if c == 'e' then pure (.err :: t) else if c == 'o' then pure (.ok :: t)
         else if c == 'm' then pure (.mismatch :: t) else none) (some [])
-    match bool? os, ans?, bool? la, bool? f1 with
-    | some os, some ans, some la, some f1 =>
-      let gate := if os then checkChainIDOnce ans else ensureChainID ans
-      let g := match gate with | .proceed => "proceed" | .fatal => "fatal" | .cancelled => "cancelled"
-      let cu := if gate == .proceed && la && f1 then "yes" else "no"
-      (s, "gate=" ++ g ++ " catchup=" ++ cu)
-    | _, _, _, _ => (s, "bad-op")
+    let optNat? (x : String) : Option (Option Nat) :=
+      if x == "-" || x == "none" then some none else (hexToNat? x).map some
+    match bool? os, ans?, optNat? la, optNat? f1, hexToNat? ch, optNat? fa, hexToNat? f2 with
+    | some os, some ans, some la, some f1, some ch, some fa, some f2 =>
+      let cfg : Startup := ⟨ans, la, f1, s.hist, ch, fa, f2⟩
+      let s0 := State.init s.init
+      let su := startUp s.guard s0 cfg os
+      let g := match su.2 with | .proceed => "proceed" | .fatal => "fatal" | .cancelled => "cancelled"
+      let final := if os then su.1 else runLife s.guard s0 cfg s.trace.reverse
+      (s, "gate=" ++ g ++ " head=" ++ fmtHead final.head)
+    | _, _, _, _, _, _, _ => (s, "bad-op")
   | ["head"] => (s, "head=" ++ fmtHead s.st.head)
-  | ["suberr"] => ({ s with st := step s.guard s.st .subErr }, "ok")
-  | ["finerr"] => ({ s with st := step s.guard s.st .finErr }, "ok")
+  | ["suberr"] => ({ s with st := step s.guard s.st .subErr, trace := .subErr :: s.trace }, "ok")
+  | ["finerr"] => ({ s with st := step s.guard s.st .finErr, trace := .finErr :: s.trace }, "ok")
+  | ["tickfault", f, k] =>
+    let k? : Option DbFault := if k == "r" then some .readErr else if k == "w" then some .writeErr else none
+    match hexToNat? f, k? with
+    | some f, some k =>
+      let r := setL1HeadFault s.guard s.st f k
+      ({ s with st := r.1 }, "head=" ++ fmtHead r.1.head ++ " feed=" ++ fmtHead r.2.1 ++
+        " fatal=" ++ (if r.2.2 then "1" else "0"))
+    | _, _ => (s, "bad-op")
+  | ["raw", a, b, c, d, e] =>
+    match hexToNat? a, hexToNat? b, hexToNat? c, hexToNat? d, bool? e with
+    | some n, some h, some r, some l1, some rm => ({ s with raws := ⟨r, n, h, l1, rm⟩ :: s.raws }, "ok")
+    | _, _, _, _, _ => (s, "bad-op")
+  | ["fwdstream"] =>
+    let out := forwardStream s.raws.reverse
+    ({ s with raws := [] }, if out.isEmpty then "-" else "|".intercalate (out.map fun u =>
+      "su " ++ natToHex u.l2 ++ " " ++ natToHex u.hash ++ " " ++ natToHex u.root ++ " " ++
+        natToHex u.l1 ++ " " ++ (if u.removed then "1" else "0")))
+  | ["feednew"] => ({ s with sub := {} }, "ok")
+  | ["feedsend", a, b, c] =>
+    match hexToNat? a, hexToNat? b, hexToNat? c with
+    | some a, some b, some c => ({ s with sub := s.sub.step (.send ⟨a, b, c⟩) }, "ok")
+    | _, _, _ => (s, "bad-op")
+  | ["feedrecv"] => ({ s with sub := s.sub.step .recv }, "ok")
+  | ["feedgot"] =>
+    (s, if s.sub.received.isEmpty then "-" else ",".intercalate (s.sub.received.map fun h => fmtHead (some h)))
   | ["resub", b] =>
     match bool? b with
-    | some b => ({ s with st := step s.guard s.st (.resub b) }, "ok")
+    | some b => ({ s with st := step s.guard s.st (.resub b), trace := .resub b :: s.trace }, "ok")
     | none => (s, "bad-op")
   | ["hist", a, b, c, d, e] =>
     match su? a b c d e with
